@@ -104,7 +104,30 @@ Definition restart (s : state) (c : config) : state :=
 Definition lower (b : N) : N := if (65 <=? b)%N && (b <=? 90)%N then (b + 32)%N else b.
 Definition fold_case (s : bytes) : bytes := map lower s.
 
-Definition equal_fold (a b : bytes) : bool := eqb_bytes (fold_case a) (fold_case b).
+(** U+212A (Kelvin sign, E2 84 AA) and U+017F (long s, C5 BF) are the only
+    non-ASCII code points whose simple case fold is an ASCII letter (k, s):
+    strings.EqualFold treats them as equal to K/k and S/s.  Every other
+    non-ASCII byte is compared as it is. *)
+Fixpoint fold_ascii_orbit (s : bytes) : bytes :=
+  match s with
+  | [] => []
+  | b0 :: r0 =>
+      match r0 with
+      | [] => [b0]
+      | b1 :: r1 =>
+          if ((b0 =? 197) && (b1 =? 191))%N then 115%N :: fold_ascii_orbit r1
+          else match r1 with
+               | b2 :: r2 =>
+                   if ((b0 =? 226) && (b1 =? 132) && (b2 =? 170))%N then 107%N :: fold_ascii_orbit r2
+                   else b0 :: fold_ascii_orbit r0
+               | [] => b0 :: fold_ascii_orbit r0
+               end
+      end
+  end.
+
+(** strings.EqualFold (rune-wise, lengths in bytes may differ). *)
+Definition equal_fold (a b : bytes) : bool :=
+  eqb_bytes (fold_case (fold_ascii_orbit a)) (fold_case (fold_ascii_orbit b)).
 
 Fixpoint prefix_b (p s : bytes) : bool :=
   match p, s with
@@ -116,6 +139,9 @@ Fixpoint prefix_b (p s : bytes) : bool :=
 Fixpoint contains_b (s sub : bytes) : bool :=
   prefix_b sub s || match s with [] => false | _ :: r => contains_b r sub end.
 
+(** Containment (searchcriterion.go containsFold): EqualFold on windows of the
+    BYTE length of the term; for an ASCII term such a window matches only if
+    it consists of ASCII bytes, so the two code points above play no role. *)
 Definition contains_fold (s sub : bytes) : bool := contains_b (fold_case s) (fold_case sub).
 
 Inductive crit :=
